@@ -637,32 +637,6 @@ func init() {
 	M("fmt.Println", func(p *Path, a []Value, pos token.Pos) Value { return TupleV{p.intConst(0, tInt), IfaceV{}} })
 	M("fmt.Print", func(p *Path, a []Value, pos token.Pos) Value { return TupleV{p.intConst(0, tInt), IfaceV{}} })
 
-	// reflect.TypeOf: an opaque, non-nil reflect.Type (only nil-ness and identity
-	// per static type are observable; any method call on it aborts the path)
-	M("reflect.TypeOf", func(p *Path, a []Value, pos token.Pos) Value {
-		iv, ok := a[0].(IfaceV)
-		if !ok || iv.T == nil {
-			return IfaceV{}
-		}
-		rp := p.eng.prog.ImportedPackage("reflect")
-		if rp == nil || rp.Type("rtype") == nil {
-			p.abortf(abortUnsupported, "reflect.TypeOf: reflect.rtype not found")
-		}
-		key := iv.T.String()
-		p.eng.rtypeMu.Lock()
-		cell, ok := p.eng.rtypes[key]
-		if !ok {
-			cell = new(Value)
-			*cell = Poison{Why: "reflect.rtype of " + key}
-			if p.eng.rtypes == nil {
-				p.eng.rtypes = map[string]*Value{}
-			}
-			p.eng.rtypes[key] = cell
-		}
-		p.eng.rtypeMu.Unlock()
-		return IfaceV{T: types.NewPointer(rp.Type("rtype").Type()), V: cell}
-	})
-
 	// ---- strconv integer formatting ----
 	M("strconv.Itoa", func(p *Path, a []Value, pos token.Pos) Value {
 		return p.mkString(p.intToDecimal(a[0].(*Term), tInt))
